@@ -112,9 +112,10 @@ def _rules():
         "merge": [
             lambda R, c, rid: c08.rule_e(R, c, rid),
             lambda R, c, rid: c08.rule_b(R, c, rid),
-            lambda R, c, rid: c08.rule_h(R, c, rid),
             lambda R, c, rid: preds.rule(R, c, rid, ["same_type"]),
             lambda R, c, rid: accessors.variant_preserving(R, c, rid),
+            lambda R, c, rid: c08.rule_h(R, c, rid),
+            lambda R, c, rid: _as(R, c, rid, c08.rule_a, "C08.a"),
         ],
         "redone": [
             lambda R, c, rid: c12.rule_f(R, c, rid),
